@@ -37,6 +37,10 @@ CHECKS = {
    text="Four-vectors x velocities lattice (|v| up to 0.999, 8 directions, massless and massive): boost inverse, invariants, boost_matrix = boost, rest_vector, against an independent numpy Lorentz transformation; HelicityAngle.build_data -> cal_angle -> find_variable round trip for every chain shape with 3 and 4 final particles and every 5th (thorough: every) 5-body shape x mass patterns x (cos theta, phi) product lattices per vertex, plus an independent check of the constructed momenta; Dalitz.generate_p on lattices for 3 mass sets.",
    note="Tolerances scale with gamma^2; squared masses compared for massless particles; cos(theta) lattice excludes +-1.",
    technique="bounded-exhaustive enumeration of chain shapes x kinematic lattices with round-trip and independent reference oracles"),
+ "C18": dict(level="exploration", ref="4-C18",
+   text="All nested dict/list/tuple structures of a grammar (depth<=3, empty dict/list/tuple at every position, leaves (N,), (N,4), (N,2,2)) x N in {1,2,5(,7)} x batch in {1,2,3,N-1,N,N+1,2N}: split content, count, merge round trip, batch_call/batch_sum = whole-sample application; ALL 2^N boolean masks; every key path; N=1001 with batch 1 (eager and lazy); files: text/npy/npz, every dat_order permutation, every composition into 1-3 files, both savetxt implementations, save_data/save_dataz; LazyCall iteration/eval/merge vs eager for every dict structure, with and without extra entries.",
+   note="Reference = numpy slicing/concatenation/indexing, exact equality. ROOT input not exercised.",
+   technique="bounded-exhaustive enumeration of data structures x sizes x batch sizes x masks against a numpy reference"),
 }
 
 NA_REASON = "check not built yet in this round (planned in DESIGN.md section 4)"
